@@ -108,7 +108,13 @@ FSuccs(t) == {u \in Leafs : \E d \in AllDeps(u) : d.p = t /\ ~d.onstart}
 Terminal(t) == FSuccs(t) = {} /\ \A d \in AllDeps(t) : ~d.onstart
 UbEnd(t) == IF T(t).leaf /\ ~Fwd(t) /\ T(t).pinEnd < 0 /\ Terminal(t) THEN NearestEnd(t) ELSE -1
 OwnEnd(t) == IF T(t).pinEnd >= 0 THEN T(t).pinEnd ELSE UbEnd(t)
-ReadyB(t) == \/ OwnEnd(t) >= 0
+\* a task that is its own (transitive) successor sits on a dependency loop: it can never be placed consistently,
+\* so an own end does not make it ready (C04 / C11: the tasks of a loop stay unscheduled, with a warning)
+RECURSIVE ReachS(_, _)
+ReachS(front, seen) == LET nxt == UNION {Succs(x) : x \in front} \ seen
+                       IN  IF nxt = {} THEN seen ELSE ReachS(nxt, seen \cup nxt)
+OnLoop(t) == t \in ReachS({t}, {})
+ReadyB(t) == \/ (OwnEnd(t) >= 0 /\ ~(T(t).pinEnd >= 0 /\ OnLoop(t)))
              \/ /\ \A d \in AllDeps(t) : d.onstart => (d.p # 0 /\ ts[d.p].sched)
                 /\ \A u \in Succs(t) : ts[u].sched
 GapTo(u, t) == LET ds == {d \in AllDeps(u) : d.p = t /\ ~d.onstart}
@@ -139,11 +145,15 @@ TeamBaseL(t, s) == MaxOf({Used(m, s) * R(m).lmul : m \in SeqSet(Members(t))}
                          \cup {IF ts[t].done = 0 /\ s = ts[t].bslot THEN ts[t].off * P.L ELSE 0})
 BaseOf(r, bl) == bl \div R(r).lmul
 Base(t, r, s) == BaseOf(r, TeamBaseL(t, s))
-MemberFree(t, r, s) == OnShift(r, s) /\ Cap(r) - Base(t, r, s) > 0 /\ LimitsOk(t, r, s)
-Bookable(t, s) == Len(Members(t)) > 0 /\ \A i \in 1..Len(Members(t)) : MemberFree(t, Members(t)[i], s)
+\* only people work: a resource group has no slot table of its own and is never available (C10)
+MemberFree(t, r, s) == R(r).leaf /\ OnShift(r, s) /\ Cap(r) - Base(t, r, s) > 0 /\ LimitsOk(t, r, s)
+\* a team is booked as a whole: every counter must have room for all the members that count against it (F35)
+TeamLimitsOk(t, s) == LET M == SeqSet(Members(t)) IN
+   \A k \in UNION {LimKeys(t, m, s) : m \in M} : Lim(k) + Cardinality({m \in M : k \in LimKeys(t, m, s)}) <= LimVal(k)
+Bookable(t, s) == Len(Members(t)) > 0 /\ (\A i \in 1..Len(Members(t)) : MemberFree(t, Members(t)[i], s)) /\ TeamLimitsOk(t, s)
 \* --- resource availability as the look-ahead of the implementation sees it (no task limits, whole slots) ---
 ResLimKeys(r, s) == UNION {{<<"r", o, i, PeriodOf(R(o).limits[i].kind, s)>> : i \in 1..Len(R(o).limits)} : o \in {r} \cup AncR(r)}
-AvailR(r, s) == OnShift(r, s) /\ Used(r, s) < Cap(r) /\ \A k \in ResLimKeys(r, s) : Lim(k) < LimVal(k)
+AvailR(r, s) == R(r).leaf /\ OnShift(r, s) /\ Used(r, s) < Cap(r) /\ \A k \in ResLimKeys(r, s) : Lim(k) < LimVal(k)
 SlotsNeeded(t, r) == CeilDiv(Need(t, r), Cap(r))
 \* index of the k-th available slot of r at or after s; -1 if the horizon ends first.  Not recursive on purpose:
 \* TLC's context chain makes a recursion of depth ~N quadratic (12 min for one 4 000-event trace, measured)
